@@ -124,8 +124,28 @@ def scan(path, src):
             j += 1
         return False
 
+    # file-scope statics of logging.c hold the registered handler: any function that assigns them, and any library function
+    # that calls QSlog_set_handler, changes whether "a handler is installed" - the premise of the DefaultBranch exemption
+    handler_vars = set()
+    if os.path.basename(path) == "logging.c":
+        for i, (t, f, l) in enumerate(toks):
+            if fn_of[i] is None and t == "static":
+                j = i + 1
+                while j < n and toks[j][0] not in (";", "=", "(", "{"):
+                    j += 1
+                if j < n and toks[j][0] in (";", "=") and re.match(r"[A-Za-z_]\w*$", toks[j - 1][0]):
+                    handler_vars.add(toks[j - 1][0])
     for i, (t, f, l) in enumerate(toks):
         if fn_of[i] is None:
+            continue
+        if t == "QSlog_set_handler" and i + 1 < n and toks[i + 1][0] == "(":
+            sites.append(dict(file=f, line=l, func=fn_of[i], callee="<set-handler>", stream="handler-state", noreturn=False))
+            continue
+        if t in handler_vars and i + 1 < n and (toks[i + 1][0] in ("=", "++", "--") or re.match(r"[-+*/%&|^]=$|<<=|>>=", toks[i + 1][0])) and (i == 0 or toks[i - 1][0] not in (".", "->")):
+            sites.append(dict(file=f, line=l, func=fn_of[i], callee="<handler-assign>", stream="handler-state", noreturn=False))
+            continue
+        if t in handler_vars and i > 0 and toks[i - 1][0] == "&":
+            sites.append(dict(file=f, line=l, func=fn_of[i], callee="<handler-address>", stream="handler-state", noreturn=False))
             continue
         if t in CALLEES and i + 1 < n and toks[i + 1][0] == "(" and (i == 0 or toks[i - 1][0] not in (".", "->")):
             args, end = args_of(i + 1)
@@ -176,13 +196,14 @@ def main():
     allsites.sort(key=lambda s: (s["file"], s["line"], s["callee"], s["stream"]))
     lines = ["(* GENERATED by tools/gen_sites.py from /repo's current source - do not edit. *)",
              "From Coq Require Import String List NArith.", "Import ListNotations.", "Local Open Scope string_scope.",
-             "Inductive stream := SStdout | SStderr | SImplicitOut | SImplicitErr | SHandle (expr : string).",
+             "(* SHandlerState: the site does not write, it changes which log handler is registered *)",
+             "Inductive stream := SStdout | SStderr | SImplicitOut | SImplicitErr | SHandlerState | SHandle (expr : string).",
              "(* s_base: enclosing function without the dbl_/mpf_/mpq_ instantiation prefix *)",
              "Record site := { s_file : string; s_line : N; s_func : string; s_base : string; s_callee : string; s_stream : stream; s_noreturn : bool }.",
              "Definition sites : list site := ["]
     body = []
     for s in allsites:
-        st = {"stdout": "SStdout", "stderr": "SStderr", "implicit-stdout": "SImplicitOut", "implicit-stderr": "SImplicitErr"}.get(s["stream"])
+        st = {"stdout": "SStdout", "stderr": "SStderr", "implicit-stdout": "SImplicitOut", "implicit-stderr": "SImplicitErr", "handler-state": "SHandlerState"}.get(s["stream"])
         if st is None:
             st = "(SHandle %s)" % coq_str(s["stream"][7:][:60])
         fn = s["func"] or ""
